@@ -39,7 +39,8 @@ res = solve_all(obs, jobs=16, timeout_s=timeout)
 bad = 0
 for ob in obs:
     r = res[ob.id]
-    if r.status != 'proved':
+    if r.status != 'proved' and not (ob.expect == 'refutable' and any(
+            res[o.id].status == 'proved' for o in obs if o.expect == 'refutable' and o.func == ob.func and o.config == ob.config)):
         bad += 1
         print(f"  {r.status.upper():8s} {ob.name}  [{r.backend} {r.time_s:.2f}s] {r.detail}")
         if r.model and '-m' in sys.argv:
